@@ -88,6 +88,8 @@ def judge(params, expected, propagated, code, name, instance, obs, out, rep, tag
         out.violation("C17:%s:code-or-name" % tag, "encoded %s / %s, expected %s / %s" % (enc["code"], enc["name"], code, name), rep)
     if instance and enc["instance"] != instance:
         out.violation("C17:%s:instance-id" % tag, "supplied instance id not kept", rep)
+    if instance and isinstance(obs.get("kind"), dict) and obs["kind"].get("instance") not in (None, instance):
+        out.violation("C17:%s:instance-id:error" % tag, "the error built from the type carries instance id %s, supplied %s" % (obs["kind"].get("instance"), instance), rep)
     if not instance and not obs.get("fresh_ids_differ", True):
         out.violation("C17:%s:instance-id-not-fresh" % tag, "two encodings without instance id share one id", rep)
     got = enc["parameters"]
@@ -159,7 +161,8 @@ def run(tier, seed):
         inst = [UUID, None, "00000000-0000-0000-0000-000000000000", None, "ffffffff-ffff-ffff-ffff-ffffffffffff", None][ci % 6]
         mode = ("propagated" if ci % 2 else "propagated_safe") if c["propagated"] else ("service" if ci % 2 else "service_safe")
         cid = "c%d" % ci
-        docs.append(json.dumps({"id": cid, "code": code, "name": "Verif:Err%d" % (ci % 7), "instance": inst, "mode": mode, "params": params}))
+        docs.append(json.dumps({"id": cid, "code": code, "name": "Verif:Err%d" % (ci % 7), "instance": inst, "mode": mode, "params": params,
+                                "by_ref": ci % 3 == 0}))     # every third error type is handed over by reference (&T implements ErrorType too)
         meta[cid] = (c, plist, expected, code, "Verif:Err%d" % (ci % 7), inst)
     text = vc.harness_parallel("vh", ["errors"], docs, nproc=4)
     replayed = 0
